@@ -649,6 +649,16 @@ impl DbInner {
 			}
 		}
 
+		// Reject an invalid change set before anything is published: a failure half way
+		// through `copy_to_overlay` would leave entries of a commit that is never queued (and
+		// therefore never cleaned) in the overlay.
+		for indexed in commit.indexed.values() {
+			indexed.validate_for_overlay(&self.options)?;
+		}
+		for iterset in commit.btree_indexed.values() {
+			iterset.validate_for_overlay(&self.options)?;
+		}
+
 		let mut overlay = self.commit_overlay.write();
 
 		queue.record_id += 1;
@@ -2136,6 +2146,28 @@ impl IndexedChangeSet {
 
 	fn push_node_change(&mut self, change: NodeChange) {
 		self.node_changes.push(change);
+	}
+
+	/// Checks, without side effects, everything `copy_to_overlay` would reject.
+	fn validate_for_overlay(&self, options: &Options) -> Result<()> {
+		let ref_counted = options.columns[self.col as usize].ref_counted;
+		for change in self.changes.iter() {
+			match &change {
+				Operation::Set(..) | Operation::Dereference(..) => (),
+				Operation::Reference(..) =>
+					if !ref_counted {
+						return Err(Error::InvalidInput(format!("No Rc for column {}", self.col)))
+					},
+				Operation::InsertTree(..) |
+				Operation::ReferenceTree(..) |
+				Operation::DereferenceTree(..) =>
+					return Err(Error::InvalidInput(format!(
+						"Invalid operation for column {}",
+						self.col
+					))),
+			}
+		}
+		Ok(())
 	}
 
 	fn copy_to_overlay(
